@@ -76,6 +76,10 @@ fn run_plain(c: &TCase, stats: &mut Stats) -> Result<u64, Violation> {
 }
 
 fn run_ledger_once(c: &TCase, t: &mut Triples) -> (Result<u64, Violation>, ledger::Report, bool) {
+    // every other history runs with one mapping per block ending at a guard page: an out-of-bounds
+    // read or an access after free then kills the worker (reported as a crash by the supervisor)
+    let guard = (c.ops.len() + c.fmt as usize) % 2 == 1;
+    ledger::set_guard_mode(guard);
     ledger::begin_region();
     let r = std::panic::catch_unwind(std::panic::AssertUnwindSafe(|| run_selected(c.fmt, c.atomic, &c.ops, t)));
     ledger::pause_region();
@@ -99,6 +103,7 @@ fn run_ledger(c: &TCase, stats: &mut Stats) -> Result<u64, Violation> {
     }
     stats.add("ledger_tracked_allocations", rep.allocs);
     stats.add("ledger_tracked_frees", rep.frees);
+    stats.add("ledger_blocks_behind_a_guard_page", rep.guarded);
     if panicked {
         stats.inc("histories_that_panicked_other_property");
     }
@@ -225,6 +230,9 @@ impl World for TendrilWorld {
             }
         };
         emit(&greedy_min(c, &candidates, &mut fails, budget))
+    }
+    fn shrink_candidates(&self, case: &Value) -> Vec<Value> {
+        candidates(&parse(case)).iter().map(emit).collect()
     }
     fn rule(&self) -> String {
         let base = "history = seeded sequence of 4..120 operations from the whole safe Tendril API (30 operation kinds) over a pool of 6 tendrils of one format (UTF8, Bytes, ASCII, Latin1, WTF8) and atomicity (NonAtomic, Atomic), lengths biased to 0,7,8,9,15,16,17,31-33,63-65 and occasional 100-600, offsets biased to the ends; non-trivial = at least 3 operations; distinct = distinct hash of (format, atomicity, operation list)";
